@@ -99,12 +99,20 @@ fn space_before_comment(cst: &Cst<'_>, span: &Span, items: &mut PrintItems, glob
             b' ' | b'\t' | b'\r' => {}
             b'\n' => {
                 if !global {
-                    items.push_signal(Signal::NewLine);
+                    items.push_condition(conditions::if_false(
+                        "newLineBeforeComment",
+                        condition_resolvers::is_start_of_line_or_is_start_of_line_indented(),
+                        Signal::NewLine.into(),
+                    ));
                 }
                 return;
             }
             _ => {
-                items.push_space();
+                items.push_condition(conditions::if_false(
+                    "spaceBeforeComment",
+                    condition_resolvers::is_start_of_line_or_is_start_of_line_indented(),
+                    Signal::SpaceIfNotTrailing.into(),
+                ));
                 return;
             }
         }
